@@ -578,6 +578,11 @@ class Bus:
     def access(t, kind, ado, data, wkc):
         """kind 0 read, 1 write, 2 read-write"""
         if kind in (0, 2):
+            refuse = getattr(t, "read_refuse", None)
+            if refuse is not None and refuse(ado, len(data)):
+                # the terminal does not process this datagram (injected)
+                t.events.append(("read_refused", ado))
+                return wkc
             data[:] = t.read(ado, len(data))
             wkc += 1
         if kind in (1, 2):
